@@ -274,10 +274,28 @@ func c19Seams(pageAddr uintptr) func() {
 
 // c19GenArg draws a 32-bit argument relative to a grid edge (the number of
 // columns or rows): {0, 1, edge-1, edge, edge+1, 2^31, 2^32-1, values that wrap
-// a 32-bit sum back into the grid, any, and - most often - a value in
+// a 32-bit sum back into the grid, values whose 32-bit product with one of
+// mults wraps back to a small number, any, and - most often - a value in
 // [0, edge+1]}.
-func c19GenArg(t *rapid.T, label string, edge uint32) uint32 {
-	switch rapid.IntRange(0, 15).Draw(t, label+"-class") {
+func c19GenArg(t *rapid.T, label string, edge uint32, mults []uint32) uint32 {
+	cls := rapid.IntRange(0, 17).Draw(t, label+"-class")
+	if cls >= 16 {
+		// a value v outside the grid whose 32-bit product with one of the
+		// factors the driver multiplies coordinates by (glyph size, pitch, bytes
+		// per cell ...) wraps back to a small number: v = ceil(k*2^32/m) + d
+		if len(mults) == 0 {
+			cls = 7
+		} else {
+			m := uint64(rapid.SampledFrom(mults).Draw(t, label+"-wrap-factor"))
+			if m < 2 {
+				m = 2
+			}
+			k := uint64(rapid.IntRange(1, int(m)-1).Draw(t, label+"-wrap-k"))
+			d := int64(rapid.IntRange(-1, int(edge)+2).Draw(t, label+"-wrap-d"))
+			return uint32(int64((k<<32+m-1)/m) + d)
+		}
+	}
+	switch cls {
 	case 0:
 		return 0
 	case 1:
@@ -327,7 +345,7 @@ func c19GenColour(t *rapid.T, label string, special []uint8) uint8 {
 // c19GenOp returns a generator of operations for a cols x rows grid. Four in
 // ten operations lie entirely inside the grid (when it has cells), the others
 // draw every argument with c19GenArg.
-func c19GenOp(cols, rows uint32, colours []uint8) *rapid.Generator[c19Op] {
+func c19GenOp(cols, rows uint32, colours []uint8, mults []uint32) *rapid.Generator[c19Op] {
 	return rapid.Custom(func(t *rapid.T) c19Op {
 		var op c19Op
 		inside := cols > 0 && rows > 0 && rapid.IntRange(0, 9).Draw(t, "inside") >= 6
@@ -335,7 +353,7 @@ func c19GenOp(cols, rows uint32, colours []uint8) *rapid.Generator[c19Op] {
 			if inside {
 				return rapid.Uint32Range(lo, hi).Draw(t, label+"-inside")
 			}
-			return c19GenArg(t, label, edge)
+			return c19GenArg(t, label, edge, mults)
 		}
 		switch rapid.IntRange(0, 9).Draw(t, "kind") {
 		case 0, 1, 2, 3:
@@ -523,7 +541,7 @@ func c19GenText(t *rapid.T) c19TextCase {
 	c.Cols = dim("cols", 8, 100)
 	c.Rows = dim("rows", 6, 50)
 	c.AtStart = rapid.IntRange(0, 3).Draw(t, "placement") == 0
-	c.Ops = rapid.SliceOfN(c19GenOp(c.Cols, c.Rows, nil), 1, 30).Draw(t, "ops")
+	c.Ops = rapid.SliceOfN(c19GenOp(c.Cols, c.Rows, nil, []uint32{2, c.Cols, 2 * c.Cols}), 1, 30).Draw(t, "ops")
 	return c
 }
 
